@@ -297,6 +297,33 @@ func (x *exec) ownedExit(st *pstate, sc *scope, results []Val, in *ssa.Return) {
 		case "assigns":
 			t := x.peek(st, op.ref, seen, in.Pos())
 			sc.vars["now$"+op.name] = SV{T: op.ref.ptr, Term: t}
+		case "fields":
+			// only the listed fields of the root node may differ from the entry value
+			c := x.ocell(st, op.ref)
+			if c.moved != "" {
+				x.ownedViolation(st, in.Pos(), "ownership of parameter "+op.name+" was given away ("+c.moved+"); declare `consumes "+op.name+"`")
+				continue
+			}
+			t := x.peek(st, op.ref, seen, in.Pos())
+			sc.vars["now$"+op.name] = SV{T: op.ref.ptr, Term: t}
+			oi := x.ownedInfoOf(op.ref.ptr)
+			listed := map[string]bool{}
+			for _, f := range x.c.C.OwnedFields(op.name) {
+				listed[f] = true
+			}
+			if t != op.ref.init {
+				x.emit(st, "frame."+op.name+".nil", "ownership", smt.Eq(oi.IsNil(t), oi.IsNil(op.ref.init)), in.Pos(), "parameter "+op.name+" is nil exactly if it was")
+				for i, f := range oi.Fields {
+					if listed[f.Name()] {
+						continue
+					}
+					a, b := oi.Field(i, t), oi.Field(i, op.ref.init)
+					if a != b {
+						x.emit(st, "frame."+op.name+"."+f.Name(), "ownership", smt.Implies(smt.Not(oi.IsNil(op.ref.init)), smt.Eq(a, b)), in.Pos(),
+							"field "+f.Name()+" of parameter "+op.name+" is unchanged (the contract lists only other fields in assigns)")
+					}
+				}
+			}
 		default:
 			c := x.ocell(st, op.ref)
 			if c.moved != "" {
